@@ -475,7 +475,13 @@ func (l *State) setServiceStateLocked(s *ServiceState) {
 	key := s.Service.CompoundServiceID()
 	old, hasOld := l.services[key]
 	if hasOld {
-		s.InSync = s.Service.IsSame(old.Service)
+		// The new entry is in sync only when it replaces an entry that was
+		// itself in sync with the catalog (and not scheduled for removal) by
+		// an identical definition. An entry that was never pushed, or whose
+		// push failed, must stay out of sync when it is registered again.
+		// old.Service is nil for the placeholder that updateSyncState creates
+		// for a catalog entry without local counterpart (Deleted: true).
+		s.InSync = old.InSync && !old.Deleted && old.Service != nil && s.Service.IsSame(old.Service)
 	}
 	l.services[key] = s
 
@@ -837,7 +843,10 @@ func (l *State) setCheckStateLocked(c *CheckState) {
 	id := c.Check.CompoundCheckID()
 	existing := l.checks[id]
 	if existing != nil {
-		c.InSync = c.Check.IsSame(existing.Check)
+		// See setServiceStateLocked: only an entry that was itself in sync
+		// and not scheduled for removal can be replaced by an in-sync one;
+		// existing.Check is nil for a placeholder.
+		c.InSync = existing.InSync && !existing.Deleted && existing.Check != nil && c.Check.IsSame(existing.Check)
 		// If the existing check has a Defercheck, it needs to be
 		// assigned to the new check
 		if existing.DeferCheck != nil && c.DeferCheck == nil {
